@@ -253,7 +253,10 @@ class Check(object):
         if n_real == 0 and not self.bounded and not self.undecided:
             self.engine_error('zero obligations generated')
         cov = {
-            'obligations': n_real, 'discharged': n_dis + n_known, 'checker_cmd': checker_cmd,
+            # obligations = those this run had to prove; the obligations that match a recorded finding of known_findings.json
+            # are REFUTED (that is what makes them a finding) and are counted separately, never as discharged
+            'obligations': n_real - n_known, 'discharged': n_dis, 'refuted_matching_known_findings': n_known,
+            'obligations_generated': n_real, 'checker_cmd': checker_cmd,
             'trusted_base': sorted(set(trusted or []) | set('%s: %s' % kv for kv in libmodel.USED.items())),
             'discharged_by_proof': n_dis,
             'known_findings_matched': [k[0] for k in self.known],
